@@ -1627,11 +1627,15 @@ type daedlineFunc func(now time.Time, host string) (deadline time.Time, original
 
 func (c *DnsController) __updateDnsCacheDeadline(cacheKey string, host string, dnsTyp uint16, answers, ns, extra []dnsmessage.RR, deadlineFunc daedlineFunc) (err error) {
 	var fqdn string
+	// Names are case-insensitive: the cache key (fqdn) and the fixed_domain_ttl
+	// lookup key (host) both use the lower-case form, so that a question name
+	// in mixed case (DNS 0x20) still gets the TTL configured for it.
 	if strings.HasSuffix(host, ".") {
 		fqdn = strings.ToLower(host)
-		host = host[:len(host)-1]
+		host = fqdn[:len(fqdn)-1]
 	} else {
 		fqdn = dnsmessage.CanonicalName(host)
+		host = strings.ToLower(host)
 	}
 	// Bypass pure IP.
 	if _, err = netip.ParseAddr(host); err == nil {
